@@ -4,7 +4,7 @@ import engine as E
 from props import updgen as U
 
 PROP = 'C04'
-MODULES = ['ZckModel.Props.C04', 'ZckModel.Props.C04Sound']
+MODULES = ['ZckModel.Props.C04', 'ZckModel.Props.C04Sound', 'ZckModel.Props.C04Req']
 ASSUMPTIONS = [
     "the server holds a valid file B and answers every range request honestly (RFC 7233: one range -> plain body, several -> "
     "multipart/byteranges in request order); the old file A, when given, is a valid zchunk file",
